@@ -1391,6 +1391,17 @@ func (s *Netceptor) printRoutingTable() {
 	}
 }
 
+// hasNonPositiveCost reports whether the update lists a connection whose cost is not positive.
+func (ri *routingUpdate) hasNonPositiveCost() bool {
+	for _, cost := range ri.Connections {
+		if cost <= 0 {
+			return true
+		}
+	}
+
+	return false
+}
+
 // Constructs a routing update message.
 func (s *Netceptor) makeRoutingUpdate(suspectedDuplicate uint64) *routingUpdate {
 	s.connLock.RLock()
@@ -1971,6 +1982,11 @@ func (s *Netceptor) runProtocol(ctx context.Context, sess BackendSession, bi *Ba
 
 							return s.sendAndLogConnectionRejection(remoteNodeID, ci, "we disagree about the connection cost")
 						}
+					}
+					if ri.hasNonPositiveCost() {
+						s.Logger.SanitizedError("Ignoring routing update from %s with a non-positive connection cost\n", ri.NodeID)
+
+						continue
 					}
 					s.handleRoutingUpdate(ri, remoteNodeID)
 				case MsgTypeServiceAdvertisement:
